@@ -169,6 +169,9 @@ inductive Instr where
   | catch_ (all : Bool)       -- `except Thrown` / bare `except` (also GeneratorExit, runtime errors)
   | endcatch
   | resume (j : Nat) (inp : Inp)   -- drive another generator from inside the body
+  | wenter (a : Nat)          -- `with start_action(...) as a:` - the start of the block
+  | wexit                     -- the end of that block: `a.__exit__(None, None, None)` when control falls out of it,
+                              -- `a.__exit__(type(e), e, tb)` when an exception (GeneratorExit of `close()` too) leaves it
 deriving DecidableEq, Repr, Inhabited
 
 structure Tok where
@@ -256,6 +259,17 @@ def runCode (child : Nat → Inp → World → Out × World) (i : Nat) :
           runCode child i rest .normal { g with toks := ts, own := g.own.tail } (w.setCtx w.cur t.old)
         else
           runCode child i rest (.prop .tokenCtx 0) { g with toks := ts, own := g.own.tail } w
+    | .wenter a =>
+      runCode child i rest .normal
+        { g with toks := ⟨w.cur, w.ctxs w.cur⟩ :: g.toks, own := a :: g.own } (w.setCtx w.cur (some a))
+    | .wexit =>
+      match g.toks with
+      | [] => runCode child i rest .normal g w
+      | t :: ts =>
+        if t.ctx = w.cur then
+          runCode child i rest .normal { g with toks := ts, own := g.own.tail } (w.setCtx w.cur t.old)
+        else
+          runCode child i rest (.prop .tokenCtx 0) { g with toks := ts, own := g.own.tail } w
     | .log m =>
       runCode child i rest .normal g { w with obs := ⟨i, m, w.ctxs w.cur, expectedOf g⟩ :: w.obs }
     | .yield v => (.yielded v, w.setGen i { g with code := rest })
@@ -282,6 +296,20 @@ def runCode (child : Nat → Inp → World → Out × World) (i : Nat) :
         (if catches all e then runCode child i rest .normal g w else runCode child i rest (.prop e 0) g w)
       else runCode child i rest (.prop e d) g w
     | .endcatch => runCode child i rest (.prop e (d - 1)) g w
+    -- a `with` block that starts after the point where the exception arose is skipped like a `try` block ...
+    | .wenter _ => runCode child i rest (.prop e (d + 1)) g w
+    -- ... and one that was entered is left through `__exit__(type(e), e, tb)`: the context is put back (a token of another
+    -- Context makes `reset` raise, which replaces `e`), `__exit__` returns `None`, the exception goes on
+    | .wexit =>
+      if d = 0 then
+        match g.toks with
+        | [] => runCode child i rest (.prop e 0) g w
+        | t :: ts =>
+          if t.ctx = w.cur then
+            runCode child i rest (.prop e 0) { g with toks := ts, own := g.own.tail } (w.setCtx w.cur t.old)
+          else
+            runCode child i rest (.prop .tokenCtx 0) { g with toks := ts, own := g.own.tail } w
+      else runCode child i rest (.prop e (d - 1)) g w
     | _ => runCode child i rest (.prop e d) g w
   | ins :: rest, .skip d, g, w =>
     match ins with
